@@ -201,9 +201,9 @@ function bindRow(row, name, tpl, ops, raw) {
   if (raw["ta.tb"]) tlist = raw["ta.tb"].split(/\s+/).map((x) => x.split("."));
   else if (raw.t) tlist = raw.t.split(/\s+/).map((x) => [x]);
   const usesT = ops.some((o) => (o.k === "va" && /^t/.test(o.arr)) || (o.k === "list" && o.elem.k === "va" && /^t/.test(o.elem.arr)));
-  if (usesT && !tlist) skip("arrangement variable without a t list");
   row.tlist = tlist;
   row.ov = ops.map((o) => { const e = o.k === "list" ? o.elem : o; return e.k === "va" && /^t[ab]?$/.test(e.arr) ? (e.arr === "t" ? "ta" : e.arr) : ""; });
+  if (usesT && !tlist) skip("arrangement variable without a t list");
 
   // ---- registers -----------------------------------------------------------------------------------------------
   // operand "Wd" <-> field "Rd" / "Vd" (same role suffix).  The DB is not always consistent about the suffix of the
@@ -341,6 +341,7 @@ function bindRow(row, name, tpl, ops, raw) {
       continue;
     }
     if (nm === "nzcv") { put("nzcv", "imm_u", ix, 0, 4); continue; }
+    if (fname === "ImmPRF" && nm === "prf_op" && has("prf_op")) { put("prf_op", "imm_u", ix, 0, 5); continue; }   // <prfop> as #imm5 (Arm ARM PRFM: "#uimm5")
     if (has("scale") && /ASimdFBitsScaleImm/.test(raw.imm || "")) { put("scale", "fbits_scale", ix, 0, regw || +fn_[2].split(",")[1]); continue; }
     if (has("immh") && has("immb") && fname) {
       const kind = { ASimdShiftNImm: "shr", ASimdSHRN: "shrn", ASimdShiftPImm: "shl", ASimdSHL: "shl", ASimdXtlImm: "shll", ASimdFBitsHBImm: "shr" }[fname];
